@@ -160,9 +160,13 @@ func sameShapeDt(a *tensor.Dense) pred {
 	return func(t *tensor.Dense) bool { return t.Dtype() == a.Dtype() && t.Shape().Eq(a.Shape()) }
 }
 
+// sameSizeDt: candidates for a reuse / incr tensor. The library compares the length of the candidate's
+// backing window with the expected size, so a view whose WINDOW has the right length (while its logical
+// size differs) gets past that check too and fails later, in Reshape - an error path of its own.
 func sameSizeDt(a *tensor.Dense) pred {
 	return func(t *tensor.Dense) bool {
-		return t.Dtype() == a.Dtype() && t.Shape().TotalSize() == a.Shape().TotalSize() && !t.IsScalar() == !a.IsScalar()
+		n := a.Shape().TotalSize()
+		return t.Dtype() == a.Dtype() && (t.Shape().TotalSize() == n || (t.IsView() && t.DataSize() == n)) && !t.IsScalar() == !a.IsScalar()
 	}
 }
 
@@ -1021,7 +1025,9 @@ func (g *Gen) genProduct() (Op, bool) {
 		t := w.get(op.In[0])
 		switch r.Intn(6) {
 		case 0, 1:
-			rr := g.pickWritable(func(x *tensor.Dense) bool { return x.Dtype() == t.Dtype() && x.Shape().TotalSize() == outElems })
+			rr := g.pickWritable(func(x *tensor.Dense) bool {
+				return x.Dtype() == t.Dtype() && (x.Shape().TotalSize() == outElems || (x.IsView() && x.DataSize() == outElems))
+			})
 			if rr >= 0 {
 				op.Mode, op.R = "reuse", rr
 			}
